@@ -1,13 +1,12 @@
 package collh
 
 import (
-	"bytes"
 	"fmt"
 	"runtime"
 	"strings"
 
 	"github.com/lyraproj/issue/issue"
-	_ "github.com/lyraproj/pcore/pcore"
+	"github.com/lyraproj/pcore/pcore"
 	"github.com/lyraproj/pcore/px"
 	"github.com/lyraproj/pcore/serialization"
 	"github.com/lyraproj/pcore/types"
@@ -235,6 +234,22 @@ func asMap(v px.Value) px.OrderedMap {
 	panic(badType{})
 }
 
+func freeEntry(p *PV) bool {
+	if p.K == "e" {
+		return true
+	}
+	for _, c := range p.L {
+		if p.K == "h" && c.K == "e" {
+			if freeEntry(c.L[0]) || freeEntry(c.L[1]) {
+				return true
+			}
+		} else if freeEntry(c) {
+			return true
+		}
+	}
+	return false
+}
+
 // Touch runs the read-only operations named by the property (type inference, printing, hashing,
 // serializing); they fill the lazy caches of the value.
 func Touch(v px.Value) {
@@ -247,10 +262,13 @@ func Touch(v px.Value) {
 	if h, ok := v.(*types.Hash); ok {
 		_ = h.IncludesKey(px.Undef)
 	}
+	if freeEntry(Snapshot(v)) {
+		// a hash entry outside a hash is not serializable data (the serializer logs a warning and prints it)
+		return
+	}
 	func() {
 		defer func() { _ = recover() }()
-		b := bytes.NewBufferString("")
-		serialization.DataToJson(v, b)
+		serialization.NewSerializer(pcore.RootContext(), px.EmptyMap).Convert(v, types.NewCollector())
 	}()
 }
 
